@@ -14,7 +14,7 @@ class NonEmpty(Contract):
 
     def setup(self, mode, size, values=None):
         st = State()
-        n = size[0]
+        n = size[0] if mode == 'B' else z3.Int('n')
         t0, t1 = in_real('t_start', values), in_real('t_end', values)
         sp = in_array(st, 'spikes', n, mode, values)
         rec = st.new_rec('SpikeTrain', {'__local__': False, 'spikes': sp, 't_start': t0, 't_end': t1})
@@ -25,9 +25,11 @@ class NonEmpty(Contract):
 
     def posts(self, st, ret, c):
         R_ = st.acc(ret)
-        if c.n == 0:
-            return [('empty_train_is_one_interval', band(cmp('==', R_.n, 2), cmp('==', R_[0], c.t0), cmp('==', R_[1], c.t1)))]
-        return [('spikes_returned', band(cmp('==', R_.n, c.n), *[cmp('==', R_[k], c.S[k]) for k in range(c.n)]))]
+        empty = cmp('==', c.n, 0)
+        one = band(cmp('==', R_.n, 2), cmp('==', R_[0], c.t0), cmp('==', R_[1], c.t1)) if (isinstance(R_.n, int) and R_.n >= 2) \
+            else (False if isinstance(R_.n, int) else band(cmp('==', R_.n, 2), R_[0] == c.t0, R_[1] == c.t1))
+        same = band(cmp('==', R_.n, c.n), forall(0, c.n, lambda k: R_[k] == c.S[k] if is_z3(k) or k < (R_.n if isinstance(R_.n, int) else 10**9) else False))
+        return [('empty_train_is_one_interval', implies(empty, one)), ('spikes_returned', implies(bnot(empty), same))]
 
 
 # ---------------------------------------------------------------------------------------------
